@@ -1,59 +1,121 @@
-(* C09 proofs, part 8: histories.  For every well-formed schema and every history of INSERT and
-   DELETE statements (any mix on both tables: deletes followed by re-inserts of the same keys,
-   RESTRICT and CASCADE parent deletes ...) that stays outside the recorded classes, a run that the
-   implementation model reproduces satisfies the property: every write is accepted iff the
-   resulting database satisfies every declared constraint, and the tables are the reference's. *)
+(* C09 proofs, part 10: histories.  For every well-formed schema and every history of INSERT,
+   UPDATE and DELETE statements on both tables (updates of key columns, deletes followed by
+   re-inserts of the same keys, RESTRICT and CASCADE parent deletes ...) that stays outside the
+   recorded classes, a run that the implementation model reproduces satisfies the property: every
+   write is accepted iff the resulting database satisfies every declared constraint, and the
+   tables are the reference's after every statement. *)
 From Coq Require Import ZArith List Bool Lia.
 From TV Require Import Model.SqlSpec Model.CheckStr Model.ConstrSpec Model.ConstrImpl Model.ConstrClass
-                       Proof.ConstrBase Proof.ConstrIns Proof.ConstrSel Proof.ConstrDel Corr.C09.
+                       Proof.ConstrBase Proof.ConstrIns Proof.ConstrSel Proof.ConstrDel Proof.ConstrUpd Corr.C09.
 Import ListNotations.
 Open Scope Z_scope.
 
-Definition no_update (h : list stmt) : bool :=
-  forallb (fun s => match s with SUpd _ _ _ => false | _ => true end) h.
-
-Lemma step_exact sch st s :
+Lemma step_exact_l sch st s :
   wf_schema sch -> Inv sch st ->
-  match s with SUpd _ _ _ => False | _ => True end ->
   stmt_class sch st s = 0 -> stmt_defined sch (abs_db st) s = true ->
   exists ok st', impl_step sch st s = (Some ok, st') /\
                  exec_write sch (abs_db st) s = (ok, abs_db st') /\ Inv sch st'.
 Proof.
-  intros W I Hs Hc Hd. destruct s as [t rows|t sets w|t w]; [|destruct Hs|].
+  intros W I Hc Hd. destruct s as [t rows|t sets w|t w].
   - apply insert_exact_l; try assumption.
     + unfold stmt_defined in Hd. apply andb_true_iff in Hd. destruct Hd as [_ Hd].
       apply andb_true_iff in Hd. tauto.
     + cbn [stmt_class] in Hc. destruct (ins_partial sch t st rows); [discriminate|reflexivity].
+  - apply update_exact_l; try assumption.
+    unfold stmt_defined in Hd. rewrite !andb_true_iff in Hd. tauto.
   - apply delete_exact_l; assumption.
 Qed.
 
 Lemma go_exact sch :
   wf_schema sch ->
-  forall steps st, Inv sch st -> no_update (map fst steps) = true ->
+  forall steps st, Inv sch st ->
     hist_class_from sch st (map fst steps) = 0 ->
     impl_go sch st steps = true -> spec_go sch (abs_db st) steps = true.
 Proof.
-  intros W. induction steps as [|[s o] steps IH]; intros st I Hn Hc Hm; [reflexivity|].
-  cbn [map fst no_update forallb] in Hn. apply andb_true_iff in Hn. destruct Hn as [Hs Hn].
+  intros W. induction steps as [|[s o] steps IH]; intros st I Hc Hm; [reflexivity|].
   cbn [map fst hist_class_from] in Hc.
   destruct (stmt_class sch st s =? 0) eqn:Hk; [|destruct (stmt_class sch st s); try discriminate; cbn in Hk; discriminate].
   apply Z.eqb_eq in Hk.
   cbn [spec_go]. unfold spec_step. destruct (stmt_defined sch (abs_db st) s) eqn:Hd; [|reflexivity].
-  assert (Hs' : match s with SUpd _ _ _ => False | _ => True end) by (destruct s; try exact Logic.I; discriminate).
-  destruct (step_exact sch st s W I Hs' Hk Hd) as [ok [st' [E1 [E2 I']]]].
+  destruct (step_exact_l sch st s W I Hk Hd) as [ok [st' [E1 [E2 I']]]].
   rewrite E2. cbn [impl_go] in Hm. rewrite E1 in Hm. rewrite E1 in Hc. cbn [snd] in Hc.
   destruct o as [ok' p c|]; [|discriminate].
   apply andb_true_iff in Hm. destruct Hm as [Hm Hrest]. rewrite Hm. cbn [andb].
-  apply (IH st' I' Hn Hc Hrest).
+  apply (IH st' I' Hc Hrest).
 Qed.
 
-Theorem constraints_exact_ins_del_l :
+Theorem constraints_exact_l :
   forall sch steps,
-    wf_schema sch -> no_update (map fst steps) = true ->
+    wf_schema sch ->
     known_class (Hist sch steps) = 0 -> model_agrees (Hist sch steps) = true ->
     spec_ok (Hist sch steps) = true.
 Proof.
-  intros sch steps W Hn Hk Hm. unfold known_class, hist_class in Hk. unfold model_agrees in Hm. unfold spec_ok.
+  intros sch steps W Hk Hm. unfold known_class, hist_class in Hk. unfold model_agrees in Hm. unfold spec_ok.
   destruct (schema_class sch =? 0) eqn:Hs; [|destruct (schema_class sch); try discriminate; cbn in Hs; discriminate].
-  exact (go_exact sch W steps (d_empty sch) (inv_empty sch) Hn Hk Hm).
+  exact (go_exact sch W steps (d_empty sch) (inv_empty sch) Hk Hm).
+Qed.
+
+(* the model itself: from the empty database, along a history outside the classes, what the
+   implementation model does is what the reference does *)
+Fixpoint spec_run (sch : schema) (d : db) (h : list stmt) : option (list (bool * db)) :=
+  match h with
+  | [] => Some []
+  | s :: h' => match spec_step sch d s with
+               | Some (ok, d') => match spec_run sch d' h' with Some tr => Some ((ok, d') :: tr) | None => None end
+               | None => None
+               end
+  end.
+Fixpoint impl_trace (sch : schema) (st : dstate) (h : list stmt) : list (option bool * db) :=
+  match h with
+  | [] => []
+  | s :: h' => let '(o, st') := impl_step sch st s in (o, abs_db st') :: impl_trace sch st' h'
+  end.
+Theorem model_refines_spec_l :
+  forall sch h tr,
+    wf_schema sch -> hist_class sch h = 0 -> spec_run sch db_empty h = Some tr ->
+    impl_trace sch (d_empty sch) h = map (fun p => (Some (fst p), snd p)) tr.
+Proof.
+  intros sch h tr W Hk. unfold hist_class in Hk.
+  destruct (schema_class sch =? 0) eqn:Hs; [|destruct (schema_class sch); try discriminate; cbn in Hs; discriminate].
+  assert (G : forall h st tr, Inv sch st -> hist_class_from sch st h = 0 -> spec_run sch (abs_db st) h = Some tr ->
+              impl_trace sch st h = map (fun p => (Some (fst p), snd p)) tr).
+  { induction h0 as [|s h0 IH]; intros st tr0 I Hc Hr.
+    - cbn [spec_run] in Hr. injection Hr as <-. reflexivity.
+    - cbn [hist_class_from] in Hc.
+      destruct (stmt_class sch st s =? 0) eqn:Hk1; [|destruct (stmt_class sch st s); try discriminate; cbn in Hk1; discriminate].
+      apply Z.eqb_eq in Hk1. cbn [spec_run] in Hr. unfold spec_step in Hr.
+      destruct (stmt_defined sch (abs_db st) s) eqn:Hd; [|discriminate].
+      destruct (step_exact_l sch st s W I Hk1 Hd) as [ok [st' [E1 [E2 I']]]].
+      rewrite E2 in Hr. rewrite E1 in Hc. cbn [snd] in Hc.
+      destruct (spec_run sch (abs_db st') h0) as [tr1|] eqn:Hr1; [|discriminate]. injection Hr as <-.
+      cbn [impl_trace]. rewrite E1. cbn [map fst snd]. f_equal. exact (IH st' tr1 I' Hc Hr1). }
+  intros Hr. exact (G h (d_empty sch) tr (inv_empty sch) Hk Hr).
+Qed.
+
+(* the CHECK classes 1-4 are exactly the complement of the fragment (up to the size bound) *)
+Lemma conj_of_skeleton ci e :
+  leaves_ok ci e = true -> has_not e = false -> or_under_and e = false -> is_or e = false -> conj_ok ci e = true.
+Proof.
+  induction e; cbn [leaves_ok has_not or_under_and is_or conj_ok]; intros L N O R; try exact L; try discriminate.
+  apply andb_true_iff in L. destruct L as [L1 L2]. apply orb_false_iff in N. destruct N as [N1 N2].
+  apply orb_false_iff in O. destruct O as [O O4]. apply orb_false_iff in O. destruct O as [O O3].
+  apply orb_false_iff in O. destruct O as [O1 O2].
+  rewrite (IHe1 L1 N1 O3 O1), (IHe2 L2 N2 O4 O2). reflexivity.
+Qed.
+Lemma dnf_of_skeleton ci e :
+  leaves_ok ci e = true -> has_not e = false -> or_under_and e = false -> dnf_ok ci e = true.
+Proof.
+  induction e; intros L N O; try exact (conj_of_skeleton ci _ L N O eq_refl); try (cbn [has_not] in N; discriminate).
+  cbn [leaves_ok has_not or_under_and dnf_ok] in *.
+  apply andb_true_iff in L. destruct L as [L1 L2]. apply orb_false_iff in N. destruct N as [N1 N2].
+  apply orb_false_iff in O. destruct O as [O1 O2].
+  rewrite (IHe1 L1 N1 O1), (IHe2 L2 N2 O2). reflexivity.
+Qed.
+Lemma chk_class_zero_frag_l names ci e :
+  chk_class names ci e = 0 -> (atoms e <= 30)%nat -> chk_frag ci e = true.
+Proof.
+  unfold chk_class, chk_frag. destruct (print_chk names e); [|discriminate].
+  destruct (leaves_ok ci e) eqn:L; [|discriminate]. cbn [negb].
+  destruct (has_not e) eqn:N; [discriminate|]. destruct (or_under_and e) eqn:O; [discriminate|].
+  intros _ Ha. rewrite (dnf_of_skeleton ci e L N O). apply Nat.leb_le. exact Ha.
 Qed.
